@@ -41,6 +41,12 @@ RULE = ("checker level: ops std_vs_xdoc / std_vs_xdoc_nl vs doctest.OutputChecke
         "doctest.testfile vs pytest --xdoctest-glob. non-trivial = standard match with got != want (checker) / a doctest the standard module passes (end-to-end); "
         "distinct = distinct (got, want) / distinct text")
 ASSUMPTIONS = [
+    'scope decision on user options: the property speaks about xdoctest as it comes (default options). Option sets that only switch OFF a '
+    'leniency xdoctest adds on top of the standard defaults (NORMALIZE_WHITESPACE, ELLIPSIS, NORMALIZE_REPR) leave it "as strict as the standard '
+    'module without flags", which still passes these docstrings; the implication is therefore ALSO checked under those sets (checker level, '
+    'end-to-end through config default_runtime_state, --options, XDOCTEST_OPTIONS, --xdoctest-options and in-docstring -OPTION directives) and a '
+    'difference there is reported like any other, the one class that exists on the unchanged tree being K-C20-k. Options that make xdoctest '
+    'stricter than the standard defaults (DONT_ACCEPT_BLANKLINE, -IGNORE..., REQUIRES, SKIP) are outside the property and not generated',
     'REPL semantics (compile(..., "single"), sys.displayhook) is CPython behaviour, not modelled; the standard doctest module is the oracle',
     'lone surrogates are not generated; str.lower/upper beyond ASCII are outside the directive model',
     'the checker-level guards exclude exactly the classes K-C20-b,d,e,f,g,h; a difference outside them is reported as a violation',
@@ -77,9 +83,35 @@ def real_std(got, want):
     return ''.join('1' if oc.check_output(want, got, f) else '0' for f in fl)
 
 
-def real_xdoc(got, want):
+# user option sets that switch OFF a leniency xdoctest has by default and the standard module does not have without a
+# flag: xdoctest is then "as strict as the standard defaults" and must still pass what the standard module passes
+STRICT_OPTS = {
+    'nw_off': {'NORMALIZE_WHITESPACE': False},
+    'ell_off': {'ELLIPSIS': False},
+    'repr_off': {'NORMALIZE_REPR': False},
+    'all_off': {'NORMALIZE_WHITESPACE': False, 'ELLIPSIS': False, 'NORMALIZE_REPR': False},
+}
+_RS_STRICT = {}
+
+
+def strict_runstates(opt):
+    if opt not in _RS_STRICT:
+        from xdoctest import directive
+        out = []
+        for src in STD_FLAG_SRC:
+            rs = directive.RuntimeState(dict(STRICT_OPTS[opt]))
+            if src:
+                rs.update(list(directive.Directive.extract('>>> x = 1  # doctest: ' + src)))
+            out.append(rs)
+        _RS_STRICT[opt] = out
+    return _RS_STRICT[opt]
+
+
+def real_xdoc(got, want, opt=None):
     from xdoctest import checker
     _, rss, _ = _setup()
+    if opt:
+        rss = strict_runstates(opt)
     out = []
     for rs in rss:
         try:
@@ -101,21 +133,31 @@ def _ansi_changes(s):
     return utils.strip_ansi(s) != s
 
 
-def _impl_holds(got, want_std, want_x, i):
+def _impl_holds(got, want_std, want_x, i, opt=None):
     """the implication std => xdoctest on the real code for flag index i"""
     if real_std(got, want_std)[i] != '1':
         return True
-    return real_xdoc(got, want_x)[i] == '1'
+    return real_xdoc(got, want_x, opt)[i] == '1'
 
 
-def classify_checker(got, want, i, nl):
+EXOTIC_WS = ''.join(chr(c) for c in (0x0b, 0x0c, 0x1c, 0x1d, 0x1e, 0x1f, 0x85, 0xa0, 0x1680, 0x2028, 0x2029, 0x202f, 0x205f, 0x3000)) + \
+    ''.join(chr(c) for c in range(0x2000, 0x200b))
+
+
+def classify_checker(got, want, i, nl, opt=None):
     """-> known finding id or None. Narrow: a class predicate holds AND the difference vanishes when the
     trigger is neutralised. Several triggers may be present in one pair: the neutralisations of the
     classes whose predicate holds are applied cumulatively, in a fixed order, and the pair is attributed
     to the class whose neutralisation makes the difference disappear; if it never disappears: None."""
     if (got, want + '\n' if nl else want) in (('True\n', '1\n'), ('False\n', '0\n')):
         return 'K-C20-e'
-    classes = [
+    classes = []
+    if opt and STRICT_OPTS[opt].get('NORMALIZE_WHITESPACE') is False:
+        # K-C20-k (only with NORMALIZE_WHITESPACE switched off by the user): the standard module empties every line of got made
+        # of whitespace other than newline, xdoctest strips blanks and tabs only
+        classes.append(('K-C20-k', lambda g, w: any(l and l.strip() == '' and l.strip(' \t') != '' for l in g.split('\n')),
+                        lambda s, is_got: ''.join(' ' if c in EXOTIC_WS else c for c in s)))
+    classes += [
         ('K-C20-d', lambda g, w: any(ord(c) > 127 for c in g + w),
          lambda s, is_got: ''.join(c if ord(c) < 128 else 'Z' for c in s)),
         ('K-C20-b', lambda g, w: MARK in g, lambda s, is_got: s.replace(MARK, '<BLANKLIN>') if is_got else s),
@@ -131,7 +173,7 @@ def classify_checker(got, want, i, nl):
             if pred(g, w):
                 g, w = neut(g, True), neut(w, False)
                 progressed = True
-                if _impl_holds(g, w + '\n' if nl else w, w, i):
+                if _impl_holds(g, w + '\n' if nl else w, w, i, opt):
                     return kid
         if not progressed:
             break
@@ -475,41 +517,51 @@ def build(kinds, layout):
     return G.render(specs, lay)
 
 
-def e2e_outcome(text):
-    """'std-reject' | 'ok' | ('diff', description)"""
+def e2e_outcome(text, defaults=None):
+    """'std-reject' | 'ok' | ('diff', description); defaults = user default_runtime_state for xdoctest (None = its defaults)"""
     f, a, Ts, nex, log = G.std_run(text)
     if f or not a:
         return 'std-reject', None
-    x = G.xdoc_run(text)
+    x = G.xdoc_run(text, defaults)
     if x['passed'] and x['T'] == Ts and x['collected'] == 1:
         return 'ok', None
     return 'diff', {'std': {'failed': f, 'attempted': a, 'T': Ts}, 'xdoctest': x}
 
 
-def classify_e2e(kinds, layout):
+def classify_e2e(kinds, layout, defaults=None):
     """known finding id if the doctest contains exactly one trigger example and the same doctest with
     the trigger replaced by a plain expression example passes under both modules"""
-    trig = [i for i, k in enumerate(kinds) if k in G.TRIGGER]
-    if len(trig) != 1:
+    def finding_of(k):
+        if k in G.TRIGGER:
+            return G.TRIGGER[k]
+        if k in G.TRIGGER_WHEN_OFF and defaults and defaults.get(G.TRIGGER_WHEN_OFF[k][1]) is False:
+            return G.TRIGGER_WHEN_OFF[k][0]
         return None
+    trig = [i for i, k in enumerate(kinds) if finding_of(k)]
+    ids = set(finding_of(kinds[i]) for i in trig)
+    base = set(G.TRIGGER[kinds[i]] for i in trig if kinds[i] in G.TRIGGER)
+    if not ids or len(base) > 1:
+        return None
+    ids = base or ids      # option-dependent triggers may accompany ONE ordinary trigger
     k2 = list(kinds)
-    k2[trig[0]] = 'expr'
+    for i in trig:
+        k2[i] = 'expr'
     text, _ = build(k2, layout)
-    o, _ = e2e_outcome(text)
+    o, _ = e2e_outcome(text, defaults)
     if o == 'ok':
-        return G.TRIGGER[kinds[trig[0]]]
+        return sorted(ids)[0]
     return None
 
 
-def shrink_e2e(kinds, layout):
+def shrink_e2e(kinds, layout, defaults=None):
     """drop examples (and the decorative layout) while the doctest still passes under the standard
     module, differs under xdoctest and is not attributable to a known finding"""
     def fails(ks, lay):
         if not ks:
             return False
         text, _ = build(ks, lay)
-        o, _d = e2e_outcome(text)
-        return o == 'diff' and classify_e2e(ks, lay) is None
+        o, _d = e2e_outcome(text, defaults)
+        return o == 'diff' and classify_e2e(ks, lay, defaults) is None
     plain = {'indent': layout.get('indent', ''), 'header': layout.get('header', False)}
     if fails(kinds, plain):
         k2 = shrink_list(kinds, lambda ks: fails(ks, plain), max_steps=60)
@@ -540,6 +592,22 @@ def _shard_e2e(args):
                 tag('kind:' + k)
             if len(samples) < 1:
                 samples.append({'suite': 'e2e', 'text': text, 'TRACE': T})
+            # the same doctest with one leniency of xdoctest switched off by the user (config default_runtime_state)
+            opt = rng.choice(sorted(STRICT_OPTS))
+            o2, d2 = e2e_outcome(text, STRICT_OPTS[opt])
+            if o2 == 'ok':
+                tag('e2e-strict:%s:std-pass=>xdoc-pass,same-TRACE' % opt)
+            else:
+                kid = classify_e2e(kinds, layout, STRICT_OPTS[opt])
+                if kid:
+                    tag('e2e-strict:%s:known:%s' % (opt, kid))
+                else:
+                    tag('e2e-strict:UNCLASSIFIED')
+                    if len(bad) < 2:
+                        k3, l3 = shrink_e2e(kinds, layout, STRICT_OPTS[opt])
+                        t3, _ = build(k3, l3)
+                        o3, d3 = e2e_outcome(t3, STRICT_OPTS[opt])
+                        bad.append({'text': t3, 'kinds': k3, 'layout': l3, 'observed': d3, 'options': STRICT_OPTS[opt]})
             continue
         kid = classify_e2e(kinds, layout)
         if kid:
@@ -554,6 +622,203 @@ def _shard_e2e(args):
     return count, tags, bad, keys, samples
 
 
+
+
+# ------------------------------------------------------------------ user options that make xdoctest stricter
+def _strict_pairs(rng, n):
+    toks = ['a', ' ', '\n', '\t', '...', MARK, '\x0c', '"', '.', 'b']
+    pairs = [(g, w) for g in token_strings(toks, 2) for w in token_strings(toks, 2)]
+    for _ in range(n):
+        g, w = gen_pair(rng)
+        pairs.append((g, w))
+        # wants that END with the marker (output ending in an empty line)
+        base = ''.join(rng.choice(['a', 'line\n', ' ', 'x = 1\n', '\n', 'b  \n']) for _ in range(rng.randint(0, 4)))
+        k = rng.randint(1, 3)
+        pairs.append((base + '\n' * k, base + (MARK + '\n') * (k - 1) + MARK))
+        pairs.append((base + '\n' * k, base + (MARK + '\n') * k))
+        pairs.append((base + '\n' * k, base + '...' + '\n' + (MARK + '\n') * (k - 1) + MARK))
+    return pairs
+
+
+def _shard_strict(args):
+    seed, shard, nshards, count = args
+    rng = random.Random('c20strict:%d' % seed)
+    pairs = [p for j, p in enumerate(_strict_pairs(rng, count)) if j % nshards == shard]
+    names = ['ELLIPSIS', 'NORMALIZE_WHITESPACE', 'IGNORE_WHITESPACE', 'NORMALIZE_REPR', 'DONT_ACCEPT_BLANKLINE']
+    lines, meta = [], []
+    for g, w in pairs:
+        for opt in STRICT_OPTS:
+            for i, rs in enumerate(strict_runstates(opt)):
+                bits = ''.join('1' if rs[k] else '0' for k in names)
+                lines.append('check_output\t%s\t%s\t%s' % (bits, enc(g), enc(w)))
+                meta.append((g, w, opt, i))
+    model = driver.run_lines(lines, jobs=1)
+    tags, dis, bad = {}, [], []
+
+    def tag(t):
+        tags[t] = tags.get(t, 0) + 1
+    cache = {}
+    for (g, w, opt, i), m in zip(meta, model):
+        key = (g, w, opt)
+        if key not in cache:
+            cache[key] = real_xdoc(g, w, opt)
+        r = cache[key][i]
+        if r != m and len(dis) < 20:
+            dis.append(('strict:xdoc_check', {'got': g, 'want': w, 'options': STRICT_OPTS[opt], 'std_flags': STD_FLAG_SRC[i]}, m, r))
+        for nl in (0, 1):
+            wx = w[:-1] if nl and w.endswith('\n') else w
+            if nl and not w.endswith('\n'):
+                continue
+            if real_std(g, w)[i] != '1':
+                continue
+            rx = r if not nl else real_xdoc(g, wx, opt)[i]
+            if rx == '1':
+                tag('strict:%s:std-match=>xdoc-match' % opt)
+            else:
+                kid = classify_checker(g, wx, i, nl, opt)
+                if kid:
+                    tag('strict:%s:known:%s' % (opt, kid))
+                else:
+                    tag('strict:UNCLASSIFIED')
+                    if len(bad) < 3:
+                        g2, w2 = shrink_strings((g, wx), lambda p, i=i, nl=nl, opt=opt: _checker_fails(p[0], p[1], i, nl, opt), max_steps=300)
+                        bad.append({'got': g2, 'want': w2, 'std_flags': STD_FLAG_SRC[i], 'i': i, 'nl': nl, 'options': STRICT_OPTS[opt], 'opt': opt})
+    return len(meta), tags, dis, bad
+
+
+def strict_checker(ctx, corr):
+    """checker level under the stricter option sets: model == implementation for the flags in force, and the implication
+    standard => xdoctest (same texts, and the end-to-end shape: the standard want with its final newline)"""
+    nsh = 16
+    res = par.pmap(_shard_strict, [(ctx.seed, s, nsh, 120 if ctx.quick else 3000) for s in range(nsh)])
+    for n, tags, dis, bad in res:
+        corr.count('strict:checker', n)
+        for k, v in tags.items():
+            corr.tag(k, v)
+        for suite, inp, mv, iv in dis:
+            corr.disagree(suite, inp, mv, iv)
+        for h in bad:
+            corr.expect_fail('checker-strict', h, 'xdoctest with this leniency switched off by the user still accepts what the standard checker accepts',
+                             'mismatch', 'options: %r' % (h['options'],))
+
+
+ROUTE_MODULE_HEAD = 'from c20helper import *\n\n\n'
+
+
+def _std_module(modpath, d):
+    import doctest
+    import importlib.util
+    import sys as _sys
+    os.environ['C20_MODE'] = 'std'
+    _sys.path.insert(0, d)
+    spec = importlib.util.spec_from_file_location('c20routes_mod', modpath)
+    mod = importlib.util.module_from_spec(spec)
+    spec.loader.exec_module(mod)
+    out = {}
+    with contextlib.redirect_stdout(io.StringIO()):
+        for test in doctest.DocTestFinder().find(mod, 'c20routes_mod'):
+            runner = doctest.DocTestRunner(verbose=False, optionflags=0)
+            r = runner.run(test, out=lambda s: None)
+            out[test.name.split('.')[-1]] = (r.failed, r.attempted)
+    return out
+
+
+def routes_suite(ctx, corr, n=None):
+    """the option NORMALIZE_WHITESPACE switched off through every route xdoctest reads user options from: config
+    default_runtime_state (API), --options on the command line, XDOCTEST_OPTIONS in the environment, --xdoctest-options under
+    pytest, and - where the standard grammar allows it - '# doctest: -NORMALIZE_WHITESPACE' in the docstring (kinds
+    *_minus_nw of the generator, in every stream). One module of generated standard-syntax docstrings (many wants END with
+    <BLANKLINE>), verdict per route vs the standard module, TRACE through a file"""
+    import json
+    import shutil
+    import subprocess
+    import sys as _sys
+    import tempfile
+    rng = ctx.sub_rng('routes')
+    n = n or (8 if ctx.quick else 40)
+    END = ['endblank', 'bareprint', 'endblank2', 'endblank_ws', 'endblank_loop', 'endblank_ell', 'blankline2', 'wsline']
+    docs = []
+    for j in range(n):
+        kinds = [rng.choice(END) if rng.random() < 0.6 else rng.choice([k for k in KINDS_PLAIN if k not in G.TRIGGER and not k.startswith('many') and not k.startswith('big')]) for _ in range(rng.randint(1, 2))]
+        kinds = [k for k in kinds if not any('"""' in l or "'''" in l for l in G.example(k, 1)['src'])] or ['endblank']
+        specs = [G.example(k, q + 1) for q, k in enumerate(kinds)]
+        body, _ = G.render(specs, {'indent': '    '})
+        docs.append(('f%d' % j, kinds, '    >>> start("f%d")\n%s' % (j, body)))
+    d = tempfile.mkdtemp(prefix='xdocverif-c20routes-')
+    try:
+        with open(os.path.join(d, 'c20helper.py'), 'w') as f:
+            f.write(HELPER)
+        modpath = os.path.join(d, 'c20routes_mod.py')
+        with open(modpath, 'w') as f:
+            f.write(ROUTE_MODULE_HEAD)
+            for name, kinds, doc in docs:
+                f.write('def %s():\n    r"""\n    Docstring in standard syntax.\n\n%s    """\n\n\n' % (name, doc))
+        st, std = G.in_child(_std_module, modpath, d)
+        if st != 'ok':
+            corr.disagree('routes', {'module': open(modpath).read()}, 'standard module runs', std)
+            return
+
+        def traces(mode):
+            out = {}
+            fp = os.path.join(d, 'trace-%s.jsonl' % mode)
+            if os.path.exists(fp):
+                for line in open(fp):
+                    tg, k = json.loads(line)
+                    out.setdefault(tg, []).append(k)
+                os.remove(fp)
+            return out
+        std_T = traces('std')
+        kept = [name for name, kinds, doc in docs if std.get(name, (1, 0))[0] == 0 and std.get(name, (1, 0))[1]]
+        env0 = dict(os.environ)
+        env0.pop('XDOCTEST_OPTIONS', None)
+        env0['PYTHONPATH'] = d + os.pathsep + env0.get('PYTHONPATH', '')
+        routes = [
+            ('cli --options=-NORMALIZE_WHITESPACE', [_sys.executable, '-m', 'xdoctest', modpath, 'all', '--nocolor', '--options=-NORMALIZE_WHITESPACE'], {}),
+            ('env XDOCTEST_OPTIONS=-NORMALIZE_WHITESPACE', [_sys.executable, '-m', 'xdoctest', modpath, 'all', '--nocolor'], {'XDOCTEST_OPTIONS': '-NORMALIZE_WHITESPACE'}),
+            ('pytest --xdoctest-options=-NORMALIZE_WHITESPACE', [_sys.executable, '-m', 'pytest', '-p', 'no:cacheprovider', '--xdoctest-modules', '--xdoctest-options=-NORMALIZE_WHITESPACE', '-q', '--rootdir', d, modpath], {}),
+            ('cli default options', [_sys.executable, '-m', 'xdoctest', modpath, 'all', '--nocolor'], {}),
+        ]
+        for label, cmd, extra in routes:
+            env = dict(env0, C20_MODE='xdoc')
+            env.update(extra)
+            p = subprocess.run(cmd, cwd=d, env=env, stdout=subprocess.PIPE, stderr=subprocess.STDOUT, timeout=600)
+            out = p.stdout.decode('utf8', 'replace')
+            xT = traces('xdoc')
+            corr.count('routes:' + label.split(' ')[0], len(kept))
+            for name, kinds, doc in docs:
+                if name not in kept:
+                    continue
+                corr.nontriv(('route', label, doc))
+                if xT.get(name, []) == std_T.get(name, []) and not _route_failed(out, name):
+                    corr.tag('routes:%s: standard-pass=>xdoctest-pass,same-TRACE' % label)
+                else:
+                    corr.expect_fail('routes', {'route': label, 'docstring': doc, 'kinds': kinds},
+                                     {'standard': 'passes', 'T': std_T.get(name, [])}, {'exit': p.returncode, 'T': xT.get(name, []), 'tail': out[-600:]},
+                                     'user option through this route; the standard module passes the docstring with no flags')
+        # API route: config default_runtime_state, every stricter option set
+        for name, kinds, doc in docs:
+            if name not in kept:
+                continue
+            text = doc.replace('    >>> start("%s")\n' % name, '', 1)
+            f, a, Ts, nex, log = G.std_run(text)
+            if f or not a:
+                continue
+            for opt, dflt in STRICT_OPTS.items():
+                corr.count('routes:api')
+                x = G.xdoc_run(text, dflt)
+                if x['passed'] and x['T'] == Ts and x['collected'] == 1:
+                    corr.tag('routes:api %s: standard-pass=>xdoctest-pass,same-TRACE' % opt)
+                else:
+                    corr.expect_fail('e2e-strict', {'text': text, 'kinds': kinds, 'layout': {'indent': '    '}, 'options': dflt},
+                                     'passes with the same TRACE', x, 'config default_runtime_state=%r' % (dflt,))
+        corr.sample({'suite': 'routes', 'docstring': docs[0][2]}, limit=18)
+    finally:
+        shutil.rmtree(d, ignore_errors=True)
+
+
+def _route_failed(out, name):
+    """does the runner's report name this docstring as failed"""
+    return bool(re.search(r'(FAILED|failed).*\b%s\b|\b%s\b.*(FAILED|failed)|::%s FAILED' % (name, name, name), out))
 
 # ------------------------------------------------------------------ state / repetition
 def _shard_seq(args):
@@ -908,7 +1173,7 @@ def correspondence(ctx, corr):
         for k, v in tags.items():
             corr.tag(k, v)
         for h in bad:
-            corr.expect_fail('e2e', {'text': h['text'], 'kinds': h['kinds'], 'layout': h['layout']},
+            corr.expect_fail('e2e-strict' if h.get('options') else 'e2e', dict({'text': h['text'], 'kinds': h['kinds'], 'layout': h['layout']}, **({'options': h['options']} if h.get('options') else {})),
                              'collected as one doctest, passes, same TRACE as the standard module', h['observed'],
                              'passes under the standard doctest module')
         for s in samples:
@@ -932,17 +1197,19 @@ def correspondence(ctx, corr):
                              'docstrings collected and run repeatedly in one process')
     corr.sample({'suite': 'e2e-seq', 'note': '2..4 docstrings, run in one process in a random order with repetitions and same-object re-runs'}, limit=16)
     textfile_suite(ctx, corr)
+    strict_checker(ctx, corr)
+    routes_suite(ctx, corr)
 
 
 # ------------------------------------------------------------------ verdict plumbing
 def classify(ctx, hit):
     inp = hit.get('input') or {}
-    if hit.get('suite') == 'e2e' or 'kinds' in inp:
-        if 'kinds' in inp:
-            return classify_e2e(inp['kinds'], inp['layout'])
+    if hit.get('suite') in ('e2e', 'e2e-strict') or 'kinds' in inp:
+        if 'kinds' in inp and 'layout' in inp:
+            return classify_e2e(inp['kinds'], inp['layout'], inp.get('options'))
         return None
     if 'got' in inp and 'i' in inp:
-        return classify_checker(inp['got'], inp['want'], inp['i'], inp.get('nl', 0))
+        return classify_checker(inp['got'], inp['want'], inp['i'], inp.get('nl', 0), inp.get('opt'))
     return None
 
 
@@ -956,6 +1223,7 @@ E2E_WITNESS = {
     'K-C20-g': '>>> print("u\'x\'", t(1))  # doctest: +ELLIPSIS\nu... 1\n',
     'K-C20-h': '>>> print("a\\rb", t(1))  # doctest: +NORMALIZE_WHITESPACE\na b 1\n',
     'K-C20-j': '>>> q1 = """\n... # doctest: +SKIP\n... """ + str(t(1))\n>>> t(2)\n2\n',
+    'K-C20-l': '>>> t(1)\n1\n>>> print(t(2))  # a remark  # doctest: +SKIP\nnot this\n>>> t(3)\n3\n',
     'K-C20-i': '>>> t(1)\n1\n>>> t(2) +\nTraceback (most recent call last):\n    ...\nSyntaxError: invalid syntax\n',
 }
 # (got, want seen by the standard checker, want seen by xdoctest, flag index) : the kernel-checked witnesses of Proofs/C20.lean
@@ -966,6 +1234,10 @@ CHECKER_WITNESS = {
     'K-C20-f': ('\x1b[0m', '\x1b[...', '\x1b[...', 2),
     'K-C20-g': ("u'", 'u...', 'u...', 2),
     'K-C20-h': ('a\ra', 'a a', 'a a', 1),
+}
+# (got, standard want, xdoctest want, flag index, stricter option set): only visible when the user switches a leniency off
+STRICT_WITNESS = {
+    'K-C20-k': ('\x0c\n"', '\n"', '\n"', 0, 'nw_off'),
 }
 
 
@@ -987,12 +1259,15 @@ def replay_finding(ctx, finding):
         except checker.GotWantException:
             pass
         ok = ok and real_std('in f 3\n5\n', 'in f 3\n5\n')[0] == '1'
-    return ok and (kid in E2E_WITNESS or kid in CHECKER_WITNESS)
+    if kid in STRICT_WITNESS:
+        g, ws, wx, i, opt = STRICT_WITNESS[kid]
+        ok = ok and real_std(g, ws)[i] == '1' and real_xdoc(g, wx, opt)[i] == '0' and real_xdoc(g, wx)[i] == '1'
+    return ok and (kid in E2E_WITNESS or kid in CHECKER_WITNESS or kid in STRICT_WITNESS)
 
 
-def _checker_fails(g, w, i, nl):
+def _checker_fails(g, w, i, nl, opt=None):
     ws = w + '\n' if nl else w
-    return real_std(g, ws)[i] == '1' and real_xdoc(g, w)[i] != '1' and classify_checker(g, w, i, nl) is None
+    return real_std(g, ws)[i] == '1' and real_xdoc(g, w, opt)[i] != '1' and classify_checker(g, w, i, nl, opt) is None
 
 
 def search(ctx, corr, broken):
@@ -1070,19 +1345,29 @@ def replay(ctx, failing):
         print('text file:\n' + inp['textfile'])
         print('doctest.testfile: failed=%r attempted=%r T=%r ; pytest text file: %r T=%r' % (r['std'][0], r['std'][1], r['std_T'], r['xdoc'], r['xdoc_T']))
         return r['std'][0] == 0 and bool(r['std'][1]) and not (r['xdoc'] == 'passed' and r['xdoc_T'] == r['std_T'])
+    if 'route' in inp and 'docstring' in inp:
+        text = re.sub(r'^    >>> start\("f\d+"\)\n', '', inp['docstring'], count=1)
+        print('route %s (replayed through the API route: config default_runtime_state NORMALIZE_WHITESPACE=False unless the route is the default one)' % inp['route'])
+        dflt = None if 'default' in inp['route'] else {'NORMALIZE_WHITESPACE': False}
+        o, d = e2e_outcome(text, dflt)
+        print('docstring:\n' + text)
+        print('outcome now: %s %r' % (o, d))
+        return o == 'diff'
     if 'text' in inp:
-        o, d = e2e_outcome(inp['text'])
+        o, d = e2e_outcome(inp['text'], inp.get('options'))
         print('text:\n' + inp['text'])
+        if inp.get('options'):
+            print('xdoctest user options (config default_runtime_state): %r' % (inp['options'],))
         print('outcome now: %s %r' % (o, d))
         if o != 'diff':
             return False
-        return classify_e2e(inp['kinds'], inp['layout']) is None if 'kinds' in inp else True
+        return classify_e2e(inp['kinds'], inp['layout'], inp.get('options')) is None if 'kinds' in inp and 'layout' in inp else True
     if 'got' in inp and 'i' in inp:
-        g, w, i, nl = inp['got'], inp['want'], inp['i'], inp.get('nl', 0)
+        g, w, i, nl, opt = inp['got'], inp['want'], inp['i'], inp.get('nl', 0), inp.get('opt')
         ws = w + '\n' if nl else w
-        print('got=%r standard want=%r xdoctest want=%r directives=%r -> standard %s, xdoctest %s' % (
-            g, ws, w, STD_FLAG_SRC[i], real_std(g, ws)[i], real_xdoc(g, w)[i]))
-        return _checker_fails(g, w, i, nl)
+        print('got=%r standard want=%r xdoctest want=%r directives=%r xdoctest user options=%r -> standard %s, xdoctest %s' % (
+            g, ws, w, STD_FLAG_SRC[i], STRICT_OPTS.get(opt), real_std(g, ws)[i], real_xdoc(g, w, opt)[i]))
+        return _checker_fails(g, w, i, nl, opt)
     if 'exc_got' in inp:
         i = STD_FLAG_SRC.index(inp['std_flags'])
         a = _std_exc(inp['exc_got'], inp['want'], i, inp['detail'])
